@@ -502,3 +502,90 @@ pub fn check(case: &Case, _tier: Tier) -> Outcome {
   o.nontrivial = cross_package || unknown_export || multi_export;
   o
 }
+
+// ---------------------------------------------------------------------------
+// a registry plus an entry module importing from it, reusable by other checks
+
+#[derive(Clone, Debug, Serialize, Deserialize)]
+pub struct JsrPart {
+  pub registry: Registry,
+  /// items of the entry module `file:///jsr_main.ts`
+  pub imports: Vec<Item>,
+  pub prefer_cached: bool,
+  /// version manifests (by global index) present in the loader's cache
+  pub cached_manifests: Vec<u16>,
+  pub with_module_graph: bool,
+}
+
+pub const JSR_MAIN: &str = "file:///jsr_main.ts";
+
+pub fn jsr_part_strategy() -> impl Strategy<Value = JsrPart> {
+  (
+    registry_strategy(),
+    proptest::collection::vec(raw_import(), 1..=5),
+    proptest::bool::weighted(0.4),
+    proptest::collection::vec(any::<u16>(), 0..=3),
+    any::<bool>(),
+  )
+    .prop_map(|(mut registry, imports, prefer_cached, cached_manifests, with_module_graph)| {
+      if with_module_graph {
+        for p in registry.packages.iter_mut() {
+          for v in p.versions.iter_mut() {
+            v.module_graph = 1;
+          }
+        }
+      }
+      JsrPart {
+        registry,
+        imports: imports
+          .iter()
+          .map(|r| {
+            let mut r = r.clone();
+            if r.kind == 0 || r.kind == 2 {
+              r.kind = 1;
+            }
+            item_of(&r, None)
+          })
+          .collect(),
+        prefer_cached,
+        cached_manifests,
+        with_module_graph,
+      }
+    })
+}
+
+impl JsrPart {
+  /// Adds the registry and the entry module to `served`; returns the cache
+  /// image (URLs that answer `CacheSetting::Only`).
+  pub fn install(
+    &self,
+    served: &mut BTreeMap<Url, crate::harness::Served>,
+  ) -> BTreeSet<Url> {
+    let mat = registry::materialize(&self.registry, self.with_module_graph);
+    served.extend(mat.served);
+    let main = Url::parse(JSR_MAIN).unwrap();
+    served.insert(
+      main.clone(),
+      crate::harness::Served::Module {
+        bytes: crate::world::render(Lang::Ts, &self.imports).into_bytes().into(),
+        headers: None,
+        final_spec: main,
+      },
+    );
+    let mut manifests: Vec<Url> = Vec::new();
+    for p in &self.registry.packages {
+      for v in &p.versions {
+        manifests.push(
+          Url::parse(&format!("{REGISTRY}{}/{}_meta.json", p.name, v.version)).unwrap(),
+        );
+      }
+    }
+    let mut cache = BTreeSet::new();
+    if !manifests.is_empty() {
+      for c in &self.cached_manifests {
+        cache.insert(manifests[idx(*c, manifests.len())].clone());
+      }
+    }
+    cache
+  }
+}
